@@ -37,7 +37,7 @@ LEVEL_TEXT = {
             "Trusted: Kani/CBMC, the phrase table in kani/src/c07.rs."),
     "C09": ("Bounded model checking of LoadBalancer::select_target as an inductive step for 1..4 targets: round-robin returns targets[index] and advances index modulo N from any index < N; random mode returns a member of the set from any seed < 2^33 with no arithmetic overflow and keeps seed < modulus. Only the target-selection clause of C09 is claimed; everything on the network is outside.",
             "Trusted: Kani/CBMC; Rust's &mut exclusivity for the 'concurrent requests' part (select_target is only reachable through a Mutex); clock stub for Lcg::new."),
-    "C10": ("Bounded model checking (Kani 0.68 -> CBMC 6.11 -> cadical) of the compiled real encoder/decoder against an RFC 6455 5.2 reference: header layout for every u64 length and every flag/opcode/key; decode of fully symbolic byte strings up to 16 bytes (every claimed length) and of frames with symbolic contents under whole/byte-wise/single-split read plans; encode->decode round trips. Holds for every value inside the listed shapes; nothing is claimed outside them.",
+    "C10": ("Bounded model checking (Kani 0.68 -> CBMC 6.11 -> cadical) of the compiled real encoder/decoder against an RFC 6455 5.2 reference: header layout for every u64 length and every flag/opcode/key; decode of fully symbolic byte strings up to 16 bytes (every claimed length) and of frames with symbolic contents under whole/byte-wise/single-split read plans; encode->decode round trips. Holds for every value inside the listed shapes; nothing is claimed outside them. Long payloads (symbolic execution of the MIR, z3 bit-vectors): complete frames of 125..300 and 65537 bytes (thorough: 65534..65537, 70 KiB, 128 KiB+1) with symbolic FIN/RSV/opcode/key/payload decode to exactly the frame sent through the 64 KiB chunk loop, every truncation is a read error, and encoding gives the RFC layout with the shortest length form and masked payload.",
             "Trusted: Kani/CBMC semantics of Rust+std, the reference model kani/src/refs/ws.rs, harness code; read plans are concrete per harness (enumerated), payload sizes >= 126 bytes only via their headers."),
     "C11": ("Bounded model checking of the real WebsocketStream/Message/Frame code over a scripted connection (TcpStream read/write stubbed): Close frames are reported as ConnectionClosed and answered by exactly one well-formed Close frame (nothing more on drop); a Ping is answered by one Pong with the same payload; send()/ping() write exactly one well-formed unmasked frame each; non-blocking receive reports `nothing yet` only when no byte arrived and handles a header split across two reads like blocking receive. Symbolic keys/payloads (<= 2-3 bytes), whole / byte-wise / single-split delivery. Message assembly (CBMC runs out of memory there) is decided by symbolic execution of the MIR of recv / recv_nonblocking / Drop (and Message::from_stream*, Frame::from_stream*, From<Frame> for Vec<u8>) on client scripts of 1..4 frames (thorough: 5) with concrete shape (payload lengths 0..126 (300) incl. 125/126, all three length forms, mask bit, truncation, bytes delivered before a non-blocking call) and symbolic FIN/RSV/opcode, keys and payload bytes: for every RFC-valid control sequence compatible with a path (enumerated by z3) the delivered payload is the unmasked fragments in order, the text flag is the first fragment's, Pings are answered by Pongs and a Close by a Close as well-formed unmasked frames echoing the payload, the bytes consumed are exactly the frames delivered, blocking and non-blocking agree, `nothing yet` only when no frame has started, and drop sends one Close unless the peer closed; invalid scripts only get `no panic`. NOT decided: the opening handshake.",
             "Trusted: Kani/CBMC, the five network stubs listed in the evidence (scripted read plan, capture buffer), refs/ws.rs; allocator-model diagnostics are not verdicts."),
